@@ -64,8 +64,8 @@ pub fn run(tape: &mut Tape, props: Props, thorough: bool, trace_on: bool) -> Out
     cfg.seed = 3 + tape.draw(1 << 16);
     let mut node = build_node(&cfg);
     let mut view = cfg.view();
-    // addresses formed by SLAAC are the node's own as well (prefix 2001:db8:X::/64 + EUI-64 of the MAC)
-    view.slaac_prefixes = true;
+    // addresses formed by SLAAC are the node's own as well (advertised /64 prefix + EUI-64 of the MAC)
+    view.slaac_iid = Some([V_MAC[0] ^ 2, V_MAC[1], V_MAC[2], 0xff, 0xfe, V_MAC[3], V_MAC[4], V_MAC[5]]);
     // a TCP connection attempt towards a silent on-link peer: SYN retransmission timers
     let with_tcp = tape.draw(3) != 0;
     let t = tcp::Socket::new(tcp::SocketBuffer::new(vec![0; 256]), tcp::SocketBuffer::new(vec![0; 256]));
